@@ -124,6 +124,11 @@ func VerifC03_DoTrafficRouting() {
 	if verifrt.Bool("ctx.emptyRevisions") {
 		w.ctx.CanaryRevision = ""
 	}
+	// the stable revision is not known yet (an Advanced DaemonSet, a workload whose controller has not reported its
+	// current revision): the stable Service cannot be pinned, so no route may be written either
+	if verifrt.Bool("ctx.emptyStableRevision") {
+		w.ctx.StableRevision = ""
+	}
 	m := NewTrafficRoutingManager(w.cli)
 	graceS := int(w.ctx.ObjectRef[0].GracePeriodSeconds)
 	if graceS <= 0 {
@@ -142,6 +147,7 @@ func VerifC03_DoTrafficRouting() {
 		verifrt.Assert(elapsed, "C03.routesOnlyAfterGracePeriod")
 		verifrt.Assert(len(w.cli.Log) == 0, "C03.noServiceWriteInTheRoutingCall")
 		verifrt.Assert(w.ctx.CanaryRevision != "", "C03.routesNeedAKnownCanaryRevision")
+		verifrt.Assert(w.ctx.StableRevision != "", "C03.routesNeedAKnownStableRevision")
 	}
 	if done {
 		verifrt.Cover("routed")
